@@ -208,7 +208,7 @@ def run_real(c, ctx):
                      constants=own(desc['constants']) or None, resources=own(desc['resources']) or None,
                      attrs=own(desc['attrs']) or None)
     combos = sweeps.py_combos(sw, rng.choice(['dict', 'pairs']))
-    cases_d = sweeps.py_cases(sw, 'dict')
+    cases_d = sweeps.py_cases(sw, rng.choice(['dict', 'dict_anyorder']))     # each dict may list its keys in its own order
     cases_t = sweeps.py_cases(sw, 'tuple')
     e = c['entry']
     try:
